@@ -171,6 +171,15 @@ impl<'a> G<'a> {
                 7 => { self.user_call(0); if !self.out.ends_with(')') { self.p(" "); let s = self.pick(IDENTS); self.p(s); } }
                 8 => { self.p("("); let s = self.pick(IDENTS); self.p(s); self.p(")"); }
                 9 => { self.builtin_call(0); }
+                10 if self.depth < 5 && self.u.coin(1, 3) => {
+                    // a macro statement in the middle of an open-code statement: the statement is still pending after it, so
+                    // a '*' is a multiplication and the ';' inside the quoted operand does not end anything
+                    self.feat("macro-statement-inside-open-statement");
+                    self.p(" "); self.d_inc();
+                    match self.u.below(3) { 0 => self.let_stmt(), 1 => self.put_stmt(), _ => { self.p("%if 1 %then %do; + 1 %end;"); } }
+                    self.depth -= 1;
+                    let t = self.pick(&[" * \"a;b\" ", " * 'c;d' ", "* \"a;b\" * x ", " * 2 "]); self.p(t); // (the blank keeps a following piece from becoming a literal suffix)
+                }
                 10 => { self.p("* "); let s = self.pick(IDENTS); self.p(s); }
                 _ => { self.p("/* cmt */"); }
             }
